@@ -223,6 +223,16 @@ class StmtMixin:
             if isinstance(tgt.slice, ast.Slice):
                 lo = self.ev(tgt.slice.lower) if tgt.slice.lower is not None else None
                 hi = self.ev(tgt.slice.upper) if tgt.slice.upper is not None else None
+                if isinstance(base, SV) and base.shape is ValS and getattr(self.world, 'abstract_seqs', False) \
+                        and tgt.slice.step is None and isinstance(tgt.value, (ast.Attribute, ast.Name)):
+                    # slice assignment on a list held as an abstract value: the
+                    # new value goes back where the list was read from
+                    from .absseq import splice
+                    src = coerce(self.path, v, ValS)
+                    new = splice(self.path, base.e, as_arith(self.force(lo)) if lo is not None else None,
+                                 as_arith(self.force(hi)) if hi is not None else None, src.e)
+                    self.assign_target(tgt.value, new)
+                    return
                 self.setslice(base, lo, hi, v)
             else:
                 self.setitem(base, self.ev(tgt.slice), v)
